@@ -379,7 +379,7 @@ impl EncodingVersion for EncodingVersion1 {
         deserializer: &mut XTypesDeserializer<'a, E, Self>,
         dynamic_data: &mut DynamicData,
     ) -> XTypesResult<()> {
-        deserializer.deserialize_fstruct_type(dynamic_data)
+        deserializer.deserialize_t_as_final(dynamic_data)
     }
 }
 
@@ -584,7 +584,7 @@ impl EncodingVersion for EncodingVersion2 {
         dynamic_data: &mut DynamicData,
     ) -> XTypesResult<()> {
         let _dheader = deserializer.deserialize_primitive_type::<u32>();
-        deserializer.deserialize_fstruct_type(dynamic_data)
+        deserializer.deserialize_t_as_final(dynamic_data)
     }
 }
 
@@ -853,8 +853,7 @@ impl<'a, E: EndiannessRead, V: EncodingVersion> XTypesDeserializer<'a, E, V> {
             TypeKind::UNION => match descriptor.extensibility_kind {
                 ExtensibilityKind::Final => self.deserialize_funion_type(&mut dynamic_data)?,
                 ExtensibilityKind::Appendable => {
-                    let _dheader = self.deserialize_primitive_type::<u32>()?;
-                    self.deserialize_funion_type(&mut dynamic_data)?
+                    V::deserialize_appendable_type(self, &mut dynamic_data)?
                 }
                 ExtensibilityKind::Mutable => V::deserialize_munion_type(self, &mut dynamic_data)?,
             },
@@ -865,6 +864,14 @@ impl<'a, E: EndiannessRead, V: EncodingVersion> XTypesDeserializer<'a, E, V> {
         }
 
         Ok(dynamic_data)
+    }
+
+    /// Serialization rule: { O : AsFinal(O.type) }
+    fn deserialize_t_as_final(&mut self, dynamic_data: &mut DynamicData) -> XTypesResult<()> {
+        match dynamic_data.r#type().get_kind() {
+            TypeKind::UNION => self.deserialize_funion_type(dynamic_data),
+            _ => self.deserialize_fstruct_type(dynamic_data),
+        }
     }
 
     /// Serialization rule: { O : Value(O.type) }
